@@ -104,7 +104,10 @@ def quadruples(m, scratch, rng, rep, n):
                     def %s(x):
                         builtins._vt(("exec", "%s", x, None))
                         return x + 1
-            """ % (cl, version, fname, fname)
+                @memento_function(%sdependencies=[Holder.%s])
+                def dep_%d(x):
+                    return Holder.%s(x) + 1
+            """ % (cl, version, fname, fname, cl, fname, i, fname)
             qual = "Holder." + fname
         else:
             body = """
@@ -114,7 +117,10 @@ def quadruples(m, scratch, rng, rep, n):
                 def %s(x):
                     builtins._vt(("exec", "%s", x, None))
                     return x + 1
-            """ % (cl, version, fname, fname)
+                @memento_function(%sdependencies=[%s])
+                def dep_%d(x):
+                    return %s(x) + 1
+            """ % (cl, version, fname, fname, cl, fname, i, fname)
             qual = fname
         store = FilesystemStorageBackend(path=os.path.join(scratch, "qstore%d" % i))
         env = fnlib.set_env(m, scratch, {(cluster or "unused"): (store, None)})
@@ -150,6 +156,27 @@ def quadruples(m, scratch, rng, rep, n):
                 listed = [r for r in m.list_memoized_functions(cluster) if r.qualified_name == qn][0]
                 if listed.external or len(listed.memento_fn.list_mementos()) != 1:
                     rep.violation("C12:listed-reference-does-not-resolve", "listed reference external=%s" % listed.external, meta)
+            # the same name as an external reference (what a reader without the code gets), and modifier clones of that stub:
+            # each still names exactly this function and version and finds the stored entry
+            ext = FunctionReference.from_qualified_name(qn, external=True, parameter_names=["x"]).memento_fn
+            for label, clone in (("stub", ext), ("ignore_result", ext.ignore_result()), ("with_prevent_further_calls", ext.with_prevent_further_calls(True)),
+                                 ("with_context_args({})", ext.with_context_args({}))):
+                cq = clone.fn_reference().qualified_name
+                cm = clone.memento(5)
+                cl_ = clone.list_mementos()
+                if cq != qn or cm is None or len(cl_) != 1:
+                    rep.violation("C12:external-stub-clone-loses-entry", "external stub of %r, %s: names %r, memento found=%s, list_mementos=%d (expected the same name, the entry, 1)"
+                                  % (qn, label, cq, cm is not None, len(cl_)), meta)
+                    break
+            # an automatically versioned function of the same module that declares this one as a dependency: its call finds
+            # the stored entry, and its dependency is this function at this version
+            dep = getattr(mod, "dep_%d" % i)
+            tr.clear()
+            w = dep(5)
+            dn = sorted(x.fn_reference().qualified_name for x in dep.dependencies().transitive_memento_fn_dependencies())
+            if w != 7 or tr.execs() or dn != [qn]:
+                rep.violation("C12:stored-entry-not-found-by-declared-dependent", "a function declaring %r as its dependency returned %r (expected 7) with %d executions of the stored call; its dependencies are %r"
+                              % (qn, w, len(tr.execs()), dn), meta)
         except Exception as e:
             rep.violation("C12:exception:%s" % type(e).__name__, "%s: %s" % (type(e).__name__, str(e)[:200]), meta)
     return total
